@@ -555,7 +555,7 @@ func runFeedReal(c *FeedCase) (bool, []string, error) {
 	}
 	published := shapedCp(key, logBr, c.N, c.Shape)
 	opts := feeder.FeedOpts{
-		LogID: id, LogOrigin: feedOrigin, LogSigVerifier: key.Verifier(), Witness: witnessAdapter{w: w},
+		LogID: id, LogOrigin: feedOrigin, LogSigVerifier: key.Verifier(), Witness: &witnessAdapter{w: w},
 		FetchCheckpoint: func(ctx context.Context) ([]byte, error) { return published, nil },
 		FetchProof: func(ctx context.Context, from, to log.Checkpoint) ([][]byte, error) {
 			if from.Size == 0 {
@@ -825,6 +825,104 @@ type AdapterCase struct {
 	Code    string `json:"code"`    // plain | unavailable | internal | deadline
 	Storage string `json:"storage"` // mem | sql
 	N       int    `json:"n"`       // size the log then publishes (for the feed through the adapter)
+	// Route (if set, the fields above except Storage are unused): ONE adapter over one witness
+	// through several steps: n > 0 a feed cycle through the adapter with the log at size n;
+	// n < 0 the witness is moved to size -n by another route (the bastion endpoint, a second
+	// feeder: anything that does not pass through this adapter object)
+	Route []int `json:"route,omitempty"`
+}
+
+// runAdapterRoute: the adapter is glue, not a witness of its own - after every step it
+// reports exactly what the witness holds, every update that reaches the witness through it
+// carries the witness's size at that moment as old size, and nothing is submitted while the
+// witness is ahead of the log.
+func runAdapterRoute(c *AdapterCase) (bool, []string, error) {
+	hc := &vlib.HistCase{Prop: "C13", Storage: c.Storage, Seed: "A",
+		Logs: []vlib.LogSpec{{Origin: feedOrigin, KeyLabel: "log0", KeyName: "logkey"}}, WKeys: vlib.ProdWKeys}
+	e := vlib.NewEnv(hc)
+	w, _, closer, err := e.NewWitness()
+	if err != nil {
+		return false, nil, fmt.Errorf("harness: %v", err)
+	}
+	defer closer()
+	key, id, main := e.LogKeys[0], e.LogIDs[0], e.Branches[0]
+	wa := &witnessAdapter{w: w}
+	held := func() (uint64, bool) {
+		b, err := w.GetCheckpoint(id)
+		if err != nil {
+			return 0, false
+		}
+		return e.ScanCheckpoint(b).Size, true
+	}
+	agree := func(step int) error {
+		wb, werr := w.GetCheckpoint(id)
+		ab, aerr := wa.GetLatestCheckpoint(context.Background(), id)
+		if werr != nil {
+			if !errors.Is(aerr, os.ErrNotExist) {
+				return fmt.Errorf("after step %d the witness holds nothing, the adapter reports %q, %v", step, ab, aerr)
+			}
+			return nil
+		}
+		if aerr != nil || !bytes.Equal(ab, wb) {
+			return fmt.Errorf("after step %d of route %v the witness holds %q, but the adapter reports %q, %v as its latest checkpoint", step, c.Route, wb, ab, aerr)
+		}
+		return nil
+	}
+	for i, n := range c.Route {
+		if n < 0 {
+			cur, have := held()
+			var proof [][]byte
+			if have && cur > 0 {
+				proof = main.Consistency(cur, uint64(-n))
+			}
+			if _, err := w.Update(context.Background(), id, cur, cpBytes(key, main, -n), proof); err != nil {
+				return false, nil, fmt.Errorf("harness: moving the witness to %d by another route failed: %v", -n, err)
+			}
+		} else {
+			cur, have := held()
+			rec := &recAdapter{inner: wa}
+			published := cpBytes(key, main, n)
+			opts := feeder.FeedOpts{
+				LogID: id, LogOrigin: feedOrigin, LogSigVerifier: key.Verifier(), Witness: rec,
+				FetchCheckpoint: func(ctx context.Context) ([]byte, error) { return published, nil },
+				FetchProof: func(ctx context.Context, from, to log.Checkpoint) ([][]byte, error) {
+					if from.Size == 0 {
+						return [][]byte{}, nil
+					}
+					return main.Consistency(from.Size, to.Size), nil
+				},
+			}
+			ctx, cancel := context.WithTimeout(context.Background(), 3*time.Second)
+			_, ferr := feeder.FeedOnce(ctx, opts)
+			cancel()
+			rec.mu.Lock()
+			var ups []call
+			for _, cl := range rec.calls {
+				if cl.Kind == "U" {
+					ups = append(ups, cl)
+				}
+			}
+			rec.mu.Unlock()
+			switch {
+			case have && cur > uint64(n):
+				if len(ups) != 0 || ferr == nil {
+					return true, nil, fmt.Errorf("step %d of route %v: the witness is at %d, ahead of the log's %d, but %d update(s) were submitted through the adapter (FeedOnce err=%v)", i, c.Route, cur, n, len(ups), ferr)
+				}
+			default:
+				if ferr != nil || len(ups) != 1 || ups[0].Old != cur {
+					olds := []uint64{}
+					for _, u := range ups {
+						olds = append(olds, u.Old)
+					}
+					return true, nil, fmt.Errorf("step %d of route %v: witness at %d (held=%v), log at %d: want one update with old size %d and success; got updates with old sizes %v, FeedOnce err=%v", i, c.Route, cur, have, n, cur, olds, ferr)
+				}
+			}
+		}
+		if err := agree(i); err != nil {
+			return true, nil, err
+		}
+	}
+	return true, []string{"adapter-route"}, nil
 }
 
 type recAdapter struct {
@@ -850,6 +948,9 @@ func (r *recAdapter) Update(ctx context.Context, logID string, oldSize uint64, n
 }
 
 func runAdapterCase(c *AdapterCase) (bool, []string, error) {
+	if len(c.Route) > 0 {
+		return runAdapterRoute(c)
+	}
 	hc := &vlib.HistCase{Prop: "C13", Storage: c.Storage, Seed: "A", Logs: []vlib.LogSpec{{Origin: feedOrigin, KeyLabel: "log0", KeyName: "logkey"}}, WKeys: vlib.ProdWKeys}
 	e := vlib.NewEnv(hc)
 	t, closer, err := e.NewInstrumentedWitness()
@@ -863,7 +964,7 @@ func runAdapterCase(c *AdapterCase) (bool, []string, error) {
 			return false, nil, fmt.Errorf("harness: plant: %v", err)
 		}
 	}
-	wa := witnessAdapter{w: t.W}
+	wa := &witnessAdapter{w: t.W}
 	cls := fmt.Sprintf("adapter:held=%v,fault=%q", c.Held >= 0, c.Point)
 	// 1. the adapter's own answer
 	if c.Point != "" {
@@ -927,7 +1028,7 @@ func runAdapterCase(c *AdapterCase) (bool, []string, error) {
 }
 
 func TestC13Adapter(t *testing.T) {
-	st := vlib.StatsFor("C13", "adapter", "exhaustive: witnessAdapter over a real witness whose storage read is made to fail at {ReadOps, Read.GetLatest} with {plain, Unavailable, Internal, DeadlineExceeded} errors, witness holding {nothing, 0, 3, 9}, mem+sql: the adapter must report an error that is not 'does not exist', and a feed cycle with that one transient failure must never present the log as first use and must succeed; non-trivial = a fault was injected while the witness held a checkpoint")
+	st := vlib.StatsFor("C13", "adapter", "exhaustive: witnessAdapter over a real witness whose storage read is made to fail at {ReadOps, Read.GetLatest} with {plain, Unavailable, Internal, DeadlineExceeded} errors, witness holding {nothing, 0, 3, 9}, mem+sql: the adapter must report an error that is not 'does not exist', and a feed cycle with that one transient failure must never present the log as first use and must succeed; plus routes in which ONE adapter serves several feed cycles while the witness is also moved by other routes in between (after every step the adapter reports exactly the witness's checkpoint, updates carry the witness's current size, nothing is sent while the witness is ahead); non-trivial = a fault was injected while the witness held a checkpoint, or a route")
 	var cases []*AdapterCase
 	for _, storage := range []string{"mem", "sql"} {
 		for _, held := range []int{-1, 0, 3, 9} {
@@ -939,6 +1040,11 @@ func TestC13Adapter(t *testing.T) {
 					cases = append(cases, &AdapterCase{Held: held, Point: point, Code: code, Storage: storage, N: 12})
 				}
 			}
+		}
+	}
+	for _, storage := range []string{"mem", "sql"} {
+		for _, route := range [][]int{{3, -5, 9}, {3, -9, 5, 9}, {-4, 6, -8, 8, 12}, {2, 2, -3, 3}} {
+			cases = append(cases, &AdapterCase{Storage: storage, Route: route})
 		}
 	}
 	// the feed cycle with a transient failure sleeps in the real back-off: run concurrently
@@ -960,7 +1066,7 @@ func TestC13Adapter(t *testing.T) {
 	wg.Wait()
 	for i, c := range cases {
 		b, _ := json.Marshal(c)
-		st.Record(string(b), results[i].nt && c.Point != "" && c.Held >= 0, results[i].cl, vlib.SampleOf(c))
+		st.Record(string(b), results[i].nt && ((c.Point != "" && c.Held >= 0) || len(c.Route) > 0), results[i].cl, vlib.SampleOf(c))
 	}
 	for i, c := range cases {
 		if err := results[i].err; err != nil {
